@@ -470,6 +470,12 @@ func (r *SqlManager) transactionHelper(ctx context.Context, operation func(tx *g
 				if err := tx.Where("id = ?", change.DIDDocumentVersionID).Delete(&orm.DidDocument{}).Error; err != nil {
 					return err
 				}
+				if change.Type == orm.DIDChangeCreated {
+					// the DID itself was created by this operation: remove it so the subject does not exist half-way
+					if err := tx.Where("id = ?", change.DIDDocumentVersion.DID.ID).Delete(&orm.DID{}).Error; err != nil {
+						return err
+					}
+				}
 			}
 		} else {
 			// delete all changes
@@ -586,6 +592,12 @@ func (r *SqlManager) Rollback(ctx context.Context) {
 					err := tx.Where("id = ?", change.DIDDocumentVersionID).Delete(&orm.DidDocument{}).Error
 					if err != nil {
 						return err
+					}
+					if change.Type == orm.DIDChangeCreated {
+						// the DID itself was created by the operation that is rolled back
+						if err := tx.Where("id = ?", change.DIDDocumentVersion.DID.ID).Delete(&orm.DID{}).Error; err != nil {
+							return err
+						}
 					}
 				}
 			}
